@@ -54,37 +54,47 @@ inductive Dec where
   | unsupported
   deriving DecidableEq, Repr
 
+def signOf (s1 : List Char) : Bool := s1.head? = some '-'
+
+def afterSign (s1 : List Char) : List Char :=
+  if s1.head? = some '-' ∨ s1.head? = some '+' then s1.drop 1 else s1
+
+def fracPart : List Char → List Char
+  | '.' :: r => r.takeWhile isDig
+  | _ => []
+
+def afterFrac : List Char → List Char
+  | '.' :: r => r.dropWhile isDig
+  | s3 => s3
+
+/-- optional exponent: only taken when at least one digit follows. -/
+def expOf : List Char → Int
+  | c :: r =>
+    if c = 'e' ∨ c = 'E' then
+      let ed := (afterSign r).takeWhile isDig
+      if ed = [] then 0
+      else
+        -- cap: beyond ±1000000 nothing changes
+        let v := dval (ed.dropWhile (· = '0'))
+        let v' := if (ed.dropWhile (· = '0')).length > 6 then 1000000 else v
+        if signOf r then -(v' : Int) else (v' : Int)
+    else 0
+  | [] => 0
+
 def parseDec (s : List Char) : Dec :=
   let s1 := s.dropWhile isSp
-  let neg := s1.head? = some '-'
-  let s2 := if s1.head? = some '-' ∨ s1.head? = some '+' then s1.drop 1 else s1
+  let s2 := afterSign s1
   let ip := s2.takeWhile isDig
   let s3 := s2.dropWhile isDig
-  let (fp, s4) := match s3 with
-    | '.' :: r => (r.takeWhile isDig, r.dropWhile isDig)
-    | _ => ([], s3)
+  let fp := fracPart s3
   if ip = [] ∧ fp = [] then
     (match s2 with
      | c :: _ => if c = 'i' ∨ c = 'I' ∨ c = 'n' ∨ c = 'N' then .unsupported else .noConv
      | [] => .noConv)
   else if ip = ['0'] ∧ (s3.head? = some 'x' ∨ s3.head? = some 'X') then .unsupported
   else
-    -- optional exponent: only taken when at least one digit follows
-    let ex : Int := match s4 with
-      | c :: r =>
-        if c = 'e' ∨ c = 'E' then
-          let eneg := r.head? = some '-'
-          let r2 := if r.head? = some '-' ∨ r.head? = some '+' then r.drop 1 else r
-          let ed := r2.takeWhile isDig
-          if ed = [] then 0
-          else
-            -- cap: beyond ±1000000 nothing changes
-            let v := dval (ed.dropWhile (· = '0'))
-            let v' := if (ed.dropWhile (· = '0')).length > 6 then 1000000 else v
-            if eneg then -(v' : Int) else (v' : Int)
-        else 0
-      | [] => 0
-    .num neg (dval (ip ++ fp)) (ex - fp.length) ((ip ++ fp).dropWhile (· = '0')).length
+    .num (signOf s1) (dval (ip ++ fp)) (expOf (afterFrac s3) - fp.length)
+      ((ip ++ fp).dropWhile (· = '0')).length
 
 /-- correctly rounded binary64 of ±m·10^e10. -/
 def ofDec (neg : Bool) (m : Nat) (e10 : Int) (nd : Nat) : Res :=
